@@ -42,6 +42,12 @@ CLAIMED = {
         "Model tied to the real helpers on every run by exhaustive small-width + seeded wide cases compared inside Coq, and the definitions are also checked directly on the real results. The emitted-VHDL half of the helpers is not covered here (constants only).",
    technique="Rocq proof by induction on Gallina models of the helpers; correspondence by vm_compute on generated cases",
    design_ref="DESIGN.md §6 C18"),
+ "C19": dict(
+   text="Proof. Unbounded theorems over all formats and raw values: +,-,* exact (UFixed subtraction modular), equality numeric, constructors preserve the number, and C19_resize_spec: the Gallina model of resize "
+        "(written leaf by leaf after resize_fn of the current tree) equals 'round (floor | nearest-even) then overflow (wrap | saturate)' on exact arithmetic for every source/target format, value and style pair. "
+        "Model tied to the real classes on every run: exhaustive over a box of formats x styles x all raw values (compared inside Coq) plus seeded wide cases; the exact-arithmetic spec is also checked directly on the real results.",
+   technique="Rocq proof (lia/Z arithmetic) of a Gallina model of resize_fn against an exact-arithmetic specification; correspondence by exhaustive vm_compute cases",
+   design_ref="DESIGN.md §6 C19"),
 }
 ALL = ["C%02d" % i for i in range(1, 21)]
 
@@ -69,7 +75,7 @@ def main():
         "setup_cmd": "cd /verif/coq && coq_makefile -f _CoqProject -o Makefile && timeout 3000 make -j16",
         "hooks": {"guard": "COHDL_VERIF", "enable": "no instrumentation hooks are needed; checks import /repo's working tree with PYTHONPATH=/repo (COHDL_VERIF=1 is set but unused)",
                   "baseline_off_cmd": "cd /repo && /venv/bin/python -m pytest -ra -q -p no:cacheprovider --timeout=900 --continue-on-collection-errors",
-                  "source_commits": ["3476bfe", "f803d4c", "1abaf18", "c2629f5", "facaad0", "1fd038a", "3cbec06"], "add_only": True},
+                  "source_commits": ["3476bfe", "f803d4c", "1abaf18", "c2629f5", "facaad0", "1fd038a", "3cbec06", "5b71994"], "add_only": True},
         "engines": [
             {"name": "coq-theories", "path": "/verif/coq", "serves_properties": sorted(CLAIMED), "kind_free_text": "Coq 8.16.1 development: models, semantics, verified checker, property theorems (full .vo build)"},
             {"name": "coq-cases", "path": "/verif/gen", "serves_properties": sorted(CLAIMED), "kind_free_text": "per-run generated obligations evaluated/proved by coqc (vm_compute)"},
